@@ -79,7 +79,7 @@ func (x *Exec) wfValDef() string {
 	sb.WriteString(" (=> ((_ is vstr) v) " + kEq("v-stid", 24) + ")\n")
 	sb.WriteString(" (=> ((_ is vptr) v) (and (>= (v-p v) 0) (or " + kEq("v-ptid", 18) + " " + kEq("v-ptid", 19) + " " + kEq("v-ptid", 21) + " " + kEq("v-ptid", 22) + " " + kEq("v-ptid", 26) + ")))\n")
 	sb.WriteString(" (=> ((_ is vslice) v) (and " + kEq("v-ltid", 23) + " (>= (s-arr (v-l v)) 0) (" + le + " " + I(0) + " (s-len (v-l v))) (" + le + " (s-len (v-l v)) (s-cap (v-l v))) (" + le + " (s-cap (v-l v)) " + I(1<<40) + ")))\n")
-	sb.WriteString(" (=> ((_ is vother) v) (or " + kEq("v-otid", 17) + " " + kEq("v-otid", 25) + " " + kEq("v-otid", 15) + " " + kEq("v-otid", 16) + " " + kEq("v-otid", 20) + "))\n")
+	sb.WriteString(" (=> ((_ is vother) v) (or " + kEq("v-otid", 17) + " " + kEq("v-otid", 25) + " " + kEq("v-otid", 15) + " " + kEq("v-otid", 16) + "))\n")
 	sb.WriteString("))\n")
 	return sb.String()
 }
@@ -150,6 +150,10 @@ func (x *Exec) incrementalScript(timeoutMs int) (string, []*Obligation) {
 }
 
 func (x *Exec) incrementalScriptFor(timeoutMs int, prop string) (string, []*Obligation) {
+	return x.incrementalScriptFor2(timeoutMs, prop, "")
+}
+
+func (x *Exec) incrementalScriptFor2(timeoutMs int, prop, class string) (string, []*Obligation) {
 	var sb strings.Builder
 	sb.WriteString(fmt.Sprintf("(set-option :timeout %d)\n", timeoutMs))
 	sb.WriteString(x.header("z3"))
@@ -172,6 +176,9 @@ func (x *Exec) incrementalScriptFor(timeoutMs int, prop string) (string, []*Obli
 		if prop != "" && !hasTag(o.Tags, prop) {
 			continue
 		}
+		if class != "" && o.Class != class {
+			continue
+		}
 		for ; nf < o.NFacts; nf++ {
 			sb.WriteString("(assert " + em.Str(x.facts[nf]) + ")\n")
 		}
@@ -180,11 +187,6 @@ func (x *Exec) incrementalScriptFor(timeoutMs int, prop string) (string, []*Obli
 		sb.WriteString("(check-sat)\n(pop 1)\n")
 		order = append(order, o)
 	}
-	// vacuity: all facts together must be satisfiable
-	for ; nf < len(x.facts); nf++ {
-		sb.WriteString("(assert " + em.Str(x.facts[nf]) + ")\n")
-	}
-	sb.WriteString("(echo \"vacuity\")\n(check-sat)\n")
 	return sb.String(), order
 }
 
@@ -271,6 +273,7 @@ type SolveOpts struct {
 	FallbackS  int    // timeout for standalone fall-back runs
 	Thorough   bool   // run every solver on every obligation
 	KeepAll    bool
+	ClassOnly  string // when set: only obligations of this class are checked
 	Prop       string // when set: only obligations tagged with this property are checked (the others are assumed)
 }
 
@@ -293,7 +296,7 @@ func (x *Exec) SolveFiltered(opts SolveOpts) ([]*OblResult, bool) {
 		results = append(results, r)
 		byObl[o] = r
 	}
-	script, order := x.incrementalScriptFor(opts.QuickMs, opts.Prop)
+	script, order := x.incrementalScriptFor2(opts.QuickMs, opts.Prop, opts.ClassOnly)
 	if len(order) == 0 {
 		return results, false
 	}
@@ -316,13 +319,20 @@ func (x *Exec) SolveFiltered(opts SolveOpts) ([]*OblResult, bool) {
 		case "sat", "unsat", "unknown", "timeout":
 			sts = append(sts, l)
 		default:
-			if strings.HasPrefix(l, "(error") {
+			if strings.HasPrefix(l, "(error") && (strings.Contains(l, "canceled") || strings.Contains(l, "timeout")) {
+				sts = append(sts, "unknown")
+			} else if strings.HasPrefix(l, "(error") {
 				sts = append(sts, "error:"+l)
 			}
 		}
 	}
 	per := sec / float64(len(order))
-	hasErr := strings.Contains(out, "(error")
+	hasErr := false
+	for _, l := range strings.Split(out, "\n") {
+		if strings.Contains(l, "(error") && !strings.Contains(l, "canceled") && !strings.Contains(l, "timeout") {
+			hasErr = true
+		}
+	}
 	for i, o := range order {
 		r := byObl[o]
 		r.Solver = "z3-new"
@@ -363,7 +373,40 @@ func (x *Exec) SolveFiltered(opts SolveOpts) ([]*OblResult, bool) {
 		}(i, o, r)
 	}
 	wg.Wait()
+	vacuous = x.vacuityCheck(opts, safe)
 	return results, vacuous
+}
+
+// vacuityCheck: the assumptions (requires, assumed contracts, typing facts - not the asserted-then-assumed obligations)
+// must be satisfiable, otherwise every obligation holds vacuously.
+func (x *Exec) vacuityCheck(opts SolveOpts, safe string) bool {
+	var ts []*Term
+	for i, f := range x.facts {
+		if !x.oblFacts[i] {
+			ts = append(ts, f)
+		}
+	}
+	var sb strings.Builder
+	sb.WriteString("(set-option :timeout 4000)\n")
+	sb.WriteString(x.header("z3"))
+	em := NewEmitter(x.tt, &sb)
+	for n := range preludeDefined {
+		em.decl["f:"+n] = true
+		em.decl["s:"+n] = true
+	}
+	emitMu.Lock()
+	em.Declare(append(append([]*Term{}, ts...), x.strLitTerms()...))
+	sb.WriteString(x.globalAxioms())
+	em.Define(ts)
+	for _, f := range ts {
+		sb.WriteString("(assert " + em.Str(f) + ")\n")
+	}
+	emitMu.Unlock()
+	sb.WriteString("(check-sat)\n")
+	f := filepath.Join(opts.Dir, safe+".vacuity.smt2")
+	os.WriteFile(f, []byte(sb.String()), 0o644)
+	out, _ := runSolver("z3-new", f, 6)
+	return firstStatus(out) == "unsat"
 }
 
 var solverSem = make(chan struct{}, 14)
@@ -448,4 +491,45 @@ func (x *Exec) fallback(opts SolveOpts, safe string, idx int, o *Obligation, r *
 		r.Status = "unknown"
 		r.Script = files["z3"]
 	}
+}
+
+// FindVacuity: binary search for the shortest prefix of facts that is unsatisfiable; returns its last fact.
+func (x *Exec) FindVacuity(dir string) string {
+	check := func(n int) bool {
+		var sb strings.Builder
+		sb.WriteString(x.header("z3"))
+		ts := append([]*Term{}, x.facts[:n]...)
+		em := NewEmitter(x.tt, &sb)
+		for nme := range preludeDefined {
+			em.decl["f:"+nme] = true
+			em.decl["s:"+nme] = true
+		}
+		em.Declare(append(append([]*Term{}, ts...), x.strLitTerms()...))
+		sb.WriteString(x.globalAxioms())
+		em.Define(ts)
+		for _, f := range ts {
+			sb.WriteString("(assert " + em.Str(f) + ")\n")
+		}
+		sb.WriteString("(check-sat)\n")
+		f := filepath.Join(dir, "vac.smt2")
+		os.WriteFile(f, []byte(sb.String()), 0o644)
+		out, _ := runSolver("z3-new", f, 20)
+		return firstStatus(out) == "unsat"
+	}
+	if !check(len(x.facts)) {
+		return "facts are satisfiable (or unknown)"
+	}
+	lo, hi := 0, len(x.facts)
+	for lo < hi {
+		mid := (lo + hi) / 2
+		if check(mid) {
+			hi = mid
+		} else {
+			lo = mid + 1
+		}
+	}
+	if lo == 0 {
+		return "global axioms are unsatisfiable"
+	}
+	return fmt.Sprintf("fact #%d makes the assumptions unsatisfiable: %s", lo, x.facts[lo-1])
 }
